@@ -563,6 +563,17 @@ def run_texts(items, rec=None):
         if o[0] == 'foreign' or (o[0] == 'lib' and o[1] != 'E2PyclParserException'):
             fail('whole-or-parser-exception', f'foreign:{o[1]}:{vd}', 'translation or E2PyclParserException', wbk.show_outcome(o))
             continue
+        if it.get('force') == 'invalid':
+            # a text of the hand-written list: the documented token forms leave no doubt that it is no formula
+            vd, toks = 'invalid', None
+        elif 'force_value' in it:
+            if o[0] == 'value' and ev is not None and ev[0] != 'timeout':
+                same, w = F.same_value(it['force_value'], ev[1]) if ev[0] == 'value' else (False, 'raises')
+                if not same:
+                    fail('value-of-the-whole-text', 'value:differs:explicit', F.show_ref(it['force_value']), wbk.show_outcome(ev), {'cmp': w})
+            elif o[0] != 'value':
+                fail('value-of-the-whole-text', 'explicit-valid-rejected', F.show_ref(it['force_value']), wbk.show_outcome(o))
+            continue
         if vd == 'unsure':
             continue
         if vd == 'invalid':
@@ -637,7 +648,10 @@ def run_case(case):
         finally:
             BAD_SNIPPETS = keep
     texts = case['texts']
-    if len(texts) == 1:
+    explicit = {it['t']: it for it in EXPLICIT}
+    if len(texts) == 1 and texts[0] in explicit:
+        items = [explicit[texts[0]]]
+    elif len(texts) == 1:
         items = [{'t': texts[0], 'k': case.get('kind', 'mut')}]
     else:
         items = [{'t': texts[0], 'k': 'canon'}] + [{'t': t, 'k': case.get('kind', 'ws')} for t in texts[1:]]
@@ -649,6 +663,8 @@ def shrink_candidates(case):
     if 'ref_to_bad' in case:
         return
     texts = case['texts']
+    if len(texts) == 1 and texts[0] in {it['t'] for it in EXPLICIT}:
+        return
     if len(texts) > 1:
         for i in range(len(texts)):
             yield {**case, 'texts': texts[:i] + texts[i + 1:]}
@@ -1067,13 +1083,23 @@ def run_ref_to_bad(rec):
     return fails
 
 
+# sheet prefixes: my lexer does not decide them, so the texts are listed by hand.  An area has one optional prefix, in front of its first
+# corner (documented form [sheet!]A1:B2); a prefix is a title followed by one "!"; a title with a blank needs quotes
+EXPLICIT = ([{'t': t, 'k': 'explicit', 'force': 'invalid'} for t in
+             ['=SUM(S!B1:T2!B3)', '=SUM(S!B1:Nope!B3)', '=S!A1:S!A3', '=SUM(S!A1:S!A3)', '=SUM(A1:T2!A3)', "=SUM('My Sheet'!A1:'My Sheet'!B2)",
+              '=VLOOKUP(2,S!B1:T2!C3,2,FALSE)', '=SUM(S!A:T2!A)', '=T2!S!A1', '=S!!A1', '=S!A1!B1', "='My Sheet'A1", '=My Sheet!A1', '=S!', '=!A1', "=''!A1",
+              '=[1]S!A1', "='[1]S'!A1", '=S!A1:B', '=SUM(T2!A1:T2!B2)+1', '=@A1', '=@SUM(A1:A2)', '={SUM(A1:A2)}', '=S!$A$1:T2!$B$2']] +
+            [{'t': t, 'k': 'explicit', 'force_value': v} for t, v in
+             [('=T2!A1+1', 18), ("='My Sheet'!B2", 53), ('=SUM(T2!A1:B2)', 96), ("=SUM('My Sheet'!A:A)", 84), ('=S!A1', 2), ('=SUM(S!$A$1:$A$3)', 10),
+              ("=T2!A1+'My Sheet'!A1", 58), ('=VLOOKUP(19,T2!A1:B3,2,FALSE)', 31), ("='T2'!B3", 37), ('="a@b"&"[1]"&"{x}"&"_xlfn."', 'a@b[1]{x}_xlfn.')]])
+
 NSHARD = 16
 
 
 def plan(tier):
     n = 160 if tier == 'quick' else 1500
     # the small deterministic lanes go first: they must not be the ones that a loaded machine's time budget cuts off
-    specs = [{'kind': 'ref-to-bad', 'shard': 400}, {'kind': 'long', 'shard': 401}]
+    specs = [{'kind': 'ref-to-bad', 'shard': 400}, {'kind': 'long', 'shard': 401}, {'kind': 'explicit', 'shard': 402}]
     specs += [{'kind': 'wrapped', 'shard': 300 + i, 'part': i, 'parts': 6} for i in range(6)]
     specs += [{'kind': 'families', 'shard': i, 'examples': n} for i in range(NSHARD)]
     specs += [{'kind': 'arity', 'shard': 100 + i, 'per_n': 10 if tier == 'quick' else 60} for i in range(8)]
@@ -1110,6 +1136,9 @@ def run_shard(spec, rec):
                      {'t': '=COUNTIFS(A1:A3,">' + '9' * n + '")', 'k': 'long'}, {'t': '=COUNTIFS(A1:A3,">1e' + str(n) + '")', 'k': 'long'}]
             for f in run_texts([it for it in items if len(it['t']) < 30000], rec):
                 rec.fail(**f)
+    elif spec['kind'] == 'explicit':
+        for f in run_texts(EXPLICIT, rec):
+            rec.fail(**f)
     elif spec['kind'] == 'ref-to-bad':
         for f in run_ref_to_bad(rec):
             rec.fail(**f)
